@@ -12,3 +12,13 @@ def behaviours(c, tier, kind):
     if len(out) < 20:
         raise tlc.SetupError("Gen.tla emitted only %d %s behaviours" % (len(out), kind))
     return out
+
+
+def jobs(c, tier, n):
+    """Thread jobs (C14) of the first n simulated documents."""
+    r = tlc.run("Gen.tla", "Gen_sim3.cfg", workers=8, timeout=1800, simulate=max(2, n // 6), depth=80, seed=c.seed + 77, heap="12g")
+    c.add_tlc(r, "world-file grammar: documents as thread jobs")
+    js = list(dict.fromkeys(r.records.get("J", [])))
+    if len(js) < min(n, 5):
+        raise tlc.SetupError("Gen.tla emitted only %d thread jobs" % len(js))
+    return js[:n]
